@@ -25,6 +25,9 @@ def dedrift(fr, drift_rate=None):
             drift_rate = fr.metadata['drift_rate']
         else:
             raise KeyError('Please specify a drift rate to account for')
+    # A Python float: a numpy fixed-width integer rate wraps around in drift_rate * tchans
+    # and drift_rate * i below, a single-precision one loses the offsets' last digits
+    drift_rate = float(drift_rate)
             
     # Calculate maximum pixel offset and raise an exception if necessary
     max_offset = int(np.round(abs(drift_rate) * fr.tchans * fr.dt / fr.df))
